@@ -12,22 +12,22 @@ theorem supOmit_all (o : Bool) : supOmit o = true := by cases o <;> decide
 theorem supParen_eq (o p : Bool) (q : Option Bool) : supParen o p q = (p && q != some o) := by
   simp [supParen, supOmit_all]
 
+def factorCtx : SupEx → Bool → Option Bool → Prop
+  | .bin o _ _, p, q => supParen o p q = true
+  | _, _, _ => True
+
 mutual
-/-- trees in which no right operand continues its parent's chain (what the left-associative reader builds) -/
+/-- trees in which no right operand continues its parent's chain without parentheses (what the left-associative reader builds) -/
 def supNormal : SupEx → Prop
   | .ent _ => True
   | .oneof items => items ≠ .nil ∧ supNormalL items
-  | .bin o a b => supNormal a ∧ supNormal b ∧ ∀ x y, b ≠ .bin o x y
+  | .bin o a b => supNormal a ∧ supNormal b ∧ factorCtx b true (supRprev o)
   | .nil | .cons _ _ => False
 def supNormalL : SupEx → Prop
   | .nil => True
   | .cons e t => supNormal e ∧ supNormalL t
   | _ => False
 end
-
-def factorCtx : SupEx → Bool → Option Bool → Prop
-  | .bin o _ _, p, q => supParen o p q = true
-  | _, _, _ => True
 
 def NoOp : List DTok → Prop
   | .kw k :: _ => k ≠ "AND" ∧ k ≠ "ANDOR"
@@ -82,20 +82,13 @@ theorem sup_rt (s : SupEx) :
   | bin o a b iha ihb =>
     refine ⟨fun h => ?_, fun h => absurd h (by simp [supNormalL])⟩
     simp only [supNormal] at h
-    obtain ⟨ha, hb, hne⟩ := h
-    have hbf : factorCtx b true (some o) := by
-      cases b with
-      | bin o' x y =>
-        simp only [factorCtx, supParen_eq, Bool.true_and]
-        have : o' ≠ o := fun hh => hne x y (by rw [hh])
-        simp [this, Ne.symm this]
-      | _ => trivial
+    obtain ⟨ha, hb, hbf⟩ := h
     -- the chain without its parentheses
     have core : ∀ r v, Ev (fun m => parseSupLoop m (.bin o a b) r) v →
-        Ev (fun n => parseSupExpr n (supToks a true (some o) ++ [.kw (supWord o)] ++ supToks b true (some o) ++ r)) v := by
+        Ev (fun n => parseSupExpr n (supToks a true (some o) ++ [.kw (supWord o)] ++ supToks b true (supRprev o) ++ r)) v := by
       intro r v hv
-      have hla : Ev (fun m => parseSupLoop m a (.kw (supWord o) :: (supToks b true (some o) ++ r))) v := by
-        obtain ⟨n1, h1⟩ := (ihb.1 hb).2 true (some o) r hbf
+      have hla : Ev (fun m => parseSupLoop m a (.kw (supWord o) :: (supToks b true (supRprev o) ++ r))) v := by
+        obtain ⟨n1, h1⟩ := (ihb.1 hb).2 true (supRprev o) r hbf
         obtain ⟨n2, h2⟩ := hv
         refine ⟨max n1 n2 + 1, fun n hn => ?_⟩
         obtain ⟨k, rfl⟩ : ∃ k, n = k + 1 := ⟨n - 1, by omega⟩
@@ -489,26 +482,22 @@ theorem entity_rt (e : EntityDecl) (hw : wfEntity e) (r : List DTok) :
       simp only [hs, if_false, List.append_assoc, List.cons_append, List.nil_append, List.singleton_append] at e2
       cases ab <;> simp [parseEntity, takeKw, hs, e2, this, b1, b2, b3, b4, b5]
 
-/-! ### regrouping of supertype chains -/
+/-! ### supertype chains: a right operand keeps its parentheses, nothing is regrouped -/
 
-theorem supParen_same (o : Bool) : supParen o true (some o) = false := by simp [supParen_eq]
+theorem supFlag : ExpPrec.rightOperandSeesParent = false := rfl
+theorem supRprev_none (o : Bool) : supRprev o = none := by simp [supRprev, supFlag]
 
-theorem supToks_attach (o : Bool) (l : SupEx) : ∀ (r : SupEx) (p : Bool) (q : Option Bool),
-    supToks (supAttach o l r) p q = supToks (.bin o l r) p q := by
-  intro r
-  induction r with
-  | bin o' x y ihx _ =>
-    intro p q
-    by_cases h : o' = o
-    · subst h
-      simp only [supAttach, if_true]
-      simp only [supToks, ihx true (some o'), supParen_same]
-      simp [List.append_assoc]
-    · simp [supAttach, h]
-  | _ => intro p q; rfl
+/-- what the parser reads back is the supertype expression itself -/
+theorem supNorm_id : ∀ s : SupEx, supNorm s = s := by
+  intro s
+  induction s with
+  | bin o a b iha ihb => simp [supNorm, supFlag, iha, ihb]
+  | oneof items ih => simp [supNorm, ih]
+  | cons e t ihe iht => simp [supNorm, ihe, iht]
+  | _ => simp [supNorm]
 
-theorem supItems_attach (o : Bool) (l r : SupEx) (f : Bool) : supItems (supAttach o l r) f = [] := by
-  cases r <;> simp only [supAttach] <;> (try split) <;> simp [supItems]
+theorem factorCtx_none (b : SupEx) : factorCtx b true none := by
+  cases b <;> simp [factorCtx, supParen_eq]
 
 mutual
 /-- supertype expressions the parser can build -/
@@ -523,52 +512,31 @@ def wfSupL : SupEx → Prop
   | _ => False
 end
 
-theorem supNormal_attach (o : Bool) (l : SupEx) (hl : supNormal l) : ∀ r, supNormal r → supNormal (supAttach o l r) := by
-  intro r
-  induction r with
-  | bin o' x y ihx _ =>
-    intro h
-    simp only [supNormal] at h
-    by_cases ho : o' = o
-    · subst ho
-      simp only [supAttach, if_true, supNormal]
-      exact ⟨ihx h.1, h.2.1, h.2.2⟩
-    · simp only [supAttach, ho, if_false, supNormal]
-      refine ⟨hl, ⟨h.1, h.2.1, h.2.2⟩, ?_⟩
-      intro x' y' he
-      injection he with h1 _ _
-      exact ho h1
-  | ent s => intro _; simp only [supAttach, supNormal]; exact ⟨hl, trivial, fun _ _ h => by cases h⟩
-  | oneof items _ => intro h; simp only [supAttach, supNormal] at h ⊢; exact ⟨hl, h, fun _ _ h => by cases h⟩
-  | nil => intro h; simp [supNormal] at h
-  | cons _ _ _ _ => intro h; simp [supNormal] at h
+theorem wfSup_normal (s : SupEx) : (wfSup s → supNormal s) ∧ (wfSupL s → supNormalL s) := by
+  induction s with
+  | ent x => exact ⟨fun _ => trivial, fun h => absurd h (by simp [wfSupL])⟩
+  | oneof items ih =>
+    refine ⟨fun h => ?_, fun h => absurd h (by simp [wfSupL])⟩
+    simp only [wfSup] at h
+    simp only [supNormal]
+    exact ⟨h.1, ih.2 h.2⟩
+  | bin o a b iha ihb =>
+    refine ⟨fun h => ?_, fun h => absurd h (by simp [wfSupL])⟩
+    simp only [wfSup] at h
+    simp only [supNormal, supRprev_none]
+    exact ⟨iha.1 h.1, ihb.1 h.2, factorCtx_none b⟩
+  | nil => exact ⟨fun h => absurd h (by simp [wfSup]), fun _ => by simp [supNormalL]⟩
+  | cons e t ihe iht =>
+    refine ⟨fun h => absurd h (by simp [wfSup]), fun h => ?_⟩
+    simp only [wfSupL] at h
+    simp only [supNormalL]
+    exact ⟨ihe.1 h.1, iht.2 h.2⟩
 
 theorem supNorm_all (s : SupEx) :
     ((∀ p q, supToks (supNorm s) p q = supToks s p q) ∧ (∀ f, supItems (supNorm s) f = supItems s f))
     ∧ (wfSup s → supNormal (supNorm s)) ∧ (wfSupL s → supNormalL (supNorm s) ∧ (s ≠ .nil → supNorm s ≠ .nil)) := by
-  induction s with
-  | ent x => exact ⟨⟨fun _ _ => rfl, fun _ => rfl⟩, fun _ => trivial, fun h => absurd h (by simp [wfSupL])⟩
-  | oneof items ih =>
-    refine ⟨⟨fun p q => ?_, fun _ => rfl⟩, fun h => ?_, fun h => absurd h (by simp [wfSupL])⟩
-    · simp [supNorm, supToks, ih.1.2]
-    · simp only [wfSup] at h
-      simp only [supNorm, supNormal]
-      exact ⟨(ih.2.2 h.2).2 h.1, (ih.2.2 h.2).1⟩
-  | bin o a b iha ihb =>
-    refine ⟨⟨fun p q => ?_, fun f => by simp [supNorm, supOmit_all, supItems_attach, supItems]⟩, fun h => ?_, fun h => absurd h (by simp [wfSupL])⟩
-    · simp only [supNorm, supOmit_all, if_true]
-      rw [supToks_attach]
-      simp [supToks, iha.1.1, ihb.1.1]
-    · simp only [wfSup] at h
-      simp only [supNorm, supOmit_all, if_true]
-      exact supNormal_attach o _ (iha.2.1 h.1) _ (ihb.2.1 h.2)
-  | nil => exact ⟨⟨fun _ _ => rfl, fun _ => rfl⟩, fun h => absurd h (by simp [wfSup]), fun _ => ⟨by simp [supNorm, supNormalL], fun h => absurd rfl h⟩⟩
-  | cons e t ihe iht =>
-    refine ⟨⟨fun _ _ => rfl, fun f => ?_⟩, fun h => absurd h (by simp [wfSup]), fun h => ?_⟩
-    · simp [supNorm, supItems, ihe.1.1, iht.1.2]
-    · simp only [wfSupL] at h
-      simp only [supNorm, supNormalL]
-      exact ⟨⟨ihe.2.1 h.1, (iht.2.2 h.2).1⟩, fun _ hh => by cases hh⟩
+  rw [supNorm_id]
+  exact ⟨⟨fun _ _ => rfl, fun _ => rfl⟩, (wfSup_normal s).1, fun h => ⟨(wfSup_normal s).2 h, fun hh => hh⟩⟩
 
 /-- entity declarations the grammar can produce -/
 structure wfEntityP (e : EntityDecl) : Prop where
@@ -596,5 +564,9 @@ theorem wfEntity_norm (e : EntityDecl) (h : wfEntityP e) : wfEntity e.norm := by
     simp only [EntityDecl.norm, Option.map_some, Option.some.injEq] at hs
     subst hs
     exact (supNorm_all s0).2.1 (h.sup s0 rfl)
+
+theorem entity_norm_id (e : EntityDecl) : e.norm = e := by
+  obtain ⟨name, ab, sup, sub, ex, de, iv, uq, wh⟩ := e
+  cases sup <;> simp [EntityDecl.norm, supNorm_id]
 
 end StepModel.Express
